@@ -24,7 +24,12 @@ from .errors import DepsetParseError
 class DepSet(boolean.AndRestriction, caching=False):
     """Gentoo DepSet syntax parser"""
 
-    __slots__ = ("_known_conditionals", "_node_conds", "element_class")
+    __slots__ = (
+        "_has_conditionals",
+        "_known_conditionals",
+        "_node_conds",
+        "element_class",
+    )
 
     _evaluate_collapse = True
 
@@ -39,6 +44,7 @@ class DepSet(boolean.AndRestriction, caching=False):
         self.element_class = element_class
         self.restrictions = restrictions
         self._node_conds = node_conds
+        self._has_conditionals = bool(node_conds)
         self.type, self.negate = restriction.package_type, False
 
     @classmethod
@@ -248,7 +254,7 @@ class DepSet(boolean.AndRestriction, caching=False):
 
     @property
     def has_conditionals(self):
-        return bool(self._node_conds)
+        return self._has_conditionals
 
     @property
     def known_conditionals(self):
